@@ -308,6 +308,9 @@ class Printer:
             self.t("[[")
             fa.append(self.attribute(a))
             self.t("]]")
+        if f.get("module") is None:
+            # a file that declares no module (and then no definition): its file attributes are all it says
+            return ["file", "-", ["module", "-"], fa, ["defs"]]
         _, man = self.prelude(None, f.get("mattrs", []))
         s = self.t("module", "w")
         sp = self.scoped(f["module"])
@@ -367,9 +370,11 @@ def layout(rng, toks, style="mixed"):
             elif r < 0.8:
                 sep = nl + nl + "  "
             elif r < 0.83:
-                sep = nl + rng.choice(REMOVED).replace("\n", nl) + nl
+                sep = nl + rng.choice(REMOVED).replace("\n", nl) + nl + rng.choice(["", "", "    ", "\t", "  \t "])   # the kept text may start indented
             elif r < 0.85:
-                sep = " " + "ü" * 0 + " "     # a no-break space is white space
+                # white space other than blank and tab, directly after the previous token or after a blank: no-break space, vertical tab,
+                # form feed, em space, ideographic space, line separator
+                sep = rng.choice(["", " "]) + rng.choice(["\u00a0", "\x0b", "\x0c", "\u2003", "\u3000", "\u2028", "\u00a0\u00a0"]) + rng.choice(["", " "])
             else:
                 sep = ""
             if need == "nl" and not sep.startswith(("\n", "\r\n")):
